@@ -55,6 +55,7 @@ type Effect struct {
 	InLoop bool
 	Block  *ssa.BasicBlock
 	Seq    int // position in the interleaved sequence of effects and conditions of the path
+	Via    []*ssa.Call // calls through which the executor entered inlined callees (outermost first); nil at top level
 }
 
 func (e Effect) String() string {
@@ -85,6 +86,8 @@ type Path struct {
 	Ret     *ssa.Return
 	RetT    []*Term
 	Panics  bool
+	// Loads: reads through element/field addresses in path order (Seq shares the numbering of Effects and Conds)
+	Loads   []Effect
 	Classes map[string]ClassSet
 	Atoms   map[string]bool
 	Free    []string // condition shapes not understood (explored both ways)
@@ -185,7 +188,10 @@ type execOpts struct {
 	MaxPaths  int
 	Pure      func(call ssa.CallInstruction) bool
 	NoInline  bool // do not inline single-block module functions into terms
-	abandoned *int
+	// InlineCallee: execute the body of this statically resolved module callee inside the caller's paths
+	// (its stores, calls and branches appear in the path with the arguments substituted). nil = never.
+	InlineCallee func(callee *ssa.Function) bool
+	abandoned    *int
 }
 
 type executor struct {
@@ -197,6 +203,7 @@ type executor struct {
 	inLoop map[*ssa.BasicBlock]bool
 	over   bool
 	escapd map[*ssa.Alloc]bool
+	scanned map[*ssa.Function]bool
 	// abandoned: path prefixes dropped because a block would have been visited more than MaxVisits times
 	abandoned int
 }
@@ -207,6 +214,7 @@ type pstate struct {
 	pred    map[*ssa.BasicBlock]*ssa.BasicBlock
 	conds   []PathCond
 	effects []Effect
+	loads   []Effect
 	classes map[string]ClassSet
 	atoms   map[string]bool
 	free    []string
@@ -215,7 +223,18 @@ type pstate struct {
 	locals  map[*ssa.Alloc]*Term
 	stored  map[string]int // address key -> number of stores so far on the path
 	elems   map[elemKey]*Term // elements of local array literals (copy-on-write, shared between forks)
+	frames  []actFrame                  // activations of inlined callees (innermost last); entries are immutable
+	subst   map[*ssa.Parameter]*Term // parameters of the inlined activations (copy-on-write)
 	tc      *TermCtx
+}
+
+// actFrame: an inlined call in progress — where to resume the caller and what to restore.
+type actFrame struct {
+	fn     *ssa.Function
+	call   *ssa.Call
+	block  *ssa.BasicBlock
+	idx    int
+	visits map[*ssa.BasicBlock]int // visit counts of the callee's blocks before this activation
 }
 
 type elemKey struct {
@@ -238,6 +257,7 @@ func (s *pstate) clone() *pstate {
 		pred:    map[*ssa.BasicBlock]*ssa.BasicBlock{},
 		conds:   append([]PathCond(nil), s.conds...),
 		effects: append([]Effect(nil), s.effects...),
+		loads:   append([]Effect(nil), s.loads...),
 		classes: map[string]ClassSet{},
 		atoms:   map[string]bool{},
 		free:    append([]string(nil), s.free...),
@@ -246,6 +266,8 @@ func (s *pstate) clone() *pstate {
 		locals:  map[*ssa.Alloc]*Term{},
 		stored:  map[string]int{},
 		elems:   s.elems,
+		frames:  append([]actFrame(nil), s.frames...),
+		subst:   s.subst,
 	}
 	for k, v := range s.stored {
 		n.stored[k] = v
@@ -288,9 +310,28 @@ func pathsOf(prog *Program, fn *ssa.Function, dom *Domain, opts execOpts) ([]*Pa
 	if dom == nil {
 		dom = &Domain{}
 	}
-	ex := &executor{prog: prog, fn: fn, dom: dom, opts: opts, inLoop: loopBlocks(fn), escapd: map[*ssa.Alloc]bool{}}
+	ex := &executor{prog: prog, fn: fn, dom: dom, opts: opts, inLoop: map[*ssa.BasicBlock]bool{}, escapd: map[*ssa.Alloc]bool{}}
 	if len(fn.Blocks) == 0 {
 		return nil, true
+	}
+	ex.scanned = map[*ssa.Function]bool{}
+	ex.scan(fn)
+	st := &pstate{visits: map[*ssa.BasicBlock]int{}, pred: map[*ssa.BasicBlock]*ssa.BasicBlock{}, classes: map[string]ClassSet{}, atoms: map[string]bool{}, locals: map[*ssa.Alloc]*Term{}, stored: map[string]int{}}
+	ex.run(st, fn.Blocks[0], nil)
+	if opts.abandoned != nil {
+		*opts.abandoned = ex.abandoned
+	}
+	return ex.paths, !ex.over
+}
+
+// scan prepares a function for execution: which of its blocks are in loops, which local cells escape.
+func (ex *executor) scan(fn *ssa.Function) {
+	if ex.scanned[fn] {
+		return
+	}
+	ex.scanned[fn] = true
+	for b, v := range loopBlocks(fn) {
+		ex.inLoop[b] = v
 	}
 	// locals whose address escapes are not tracked
 	for _, b := range fn.Blocks {
@@ -316,12 +357,86 @@ func pathsOf(prog *Program, fn *ssa.Function, dom *Domain, opts execOpts) ([]*Pa
 			}
 		}
 	}
-	st := &pstate{visits: map[*ssa.BasicBlock]int{}, pred: map[*ssa.BasicBlock]*ssa.BasicBlock{}, classes: map[string]ClassSet{}, atoms: map[string]bool{}, locals: map[*ssa.Alloc]*Term{}, stored: map[string]int{}}
-	ex.run(st, fn.Blocks[0], nil)
-	if opts.abandoned != nil {
-		*opts.abandoned = ex.abandoned
+}
+
+// inlinable: a statically resolved module callee with a body, no defers, not already active (no recursion).
+func (ex *executor) inlinable(st *pstate, call *ssa.Call) *ssa.Function {
+	if ex.opts.InlineCallee == nil || call.Common().IsInvoke() {
+		return nil
 	}
-	return ex.paths, !ex.over
+	f, ok := call.Common().Value.(*ssa.Function)
+	if !ok || len(f.Blocks) == 0 || len(f.Blocks) > 80 || f == ex.fn || len(st.frames) >= 4 || !ex.opts.InlineCallee(f) {
+		return nil
+	}
+	for _, fr := range st.frames {
+		if fr.fn == f {
+			return nil
+		}
+	}
+	for _, b := range f.Blocks {
+		for _, in := range b.Instrs {
+			switch in.(type) {
+			case *ssa.Defer, *ssa.RunDefers, *ssa.Go, *ssa.Select:
+				return nil
+			}
+		}
+	}
+	return f
+}
+
+// enter starts the activation of callee f for the call at b.Instrs[idx].
+func (ex *executor) enter(st *pstate, f *ssa.Function, call *ssa.Call, b *ssa.BasicBlock, idx int) {
+	ex.scan(f)
+	tc := st.tc
+	sub := map[*ssa.Parameter]*Term{}
+	for k, v := range st.subst {
+		sub[k] = v
+	}
+	for i, p := range f.Params {
+		if i < len(call.Call.Args) {
+			sub[p] = tc.Of(call.Call.Args[i])
+		}
+	}
+	fr := actFrame{fn: f, call: call, block: b, idx: idx, visits: map[*ssa.BasicBlock]int{}}
+	for _, cb := range f.Blocks {
+		fr.visits[cb] = st.visits[cb]
+		st.visits[cb] = 0
+		// a previous activation on this path left terms for the callee's values: they are recomputed
+		for _, in := range cb.Instrs {
+			if v, ok := in.(ssa.Value); ok {
+				delete(tc.memo, v)
+			}
+			if a, ok := in.(*ssa.Alloc); ok {
+				delete(st.locals, a)
+			}
+		}
+	}
+	st.frames = append(st.frames, fr)
+	st.subst = sub
+	tc.subst = sub
+	ex.run(st, f.Blocks[0], nil)
+}
+
+// leave ends the innermost activation at one of its returns and resumes the caller.
+func (ex *executor) leave(st *pstate, ret *ssa.Return) {
+	tc := st.tc
+	fr := st.frames[len(st.frames)-1]
+	var rs []*Term
+	for _, r := range ret.Results {
+		rs = append(rs, tc.Of(r))
+	}
+	st.frames = st.frames[:len(st.frames)-1]
+	for cb, n := range fr.visits {
+		st.visits[cb] = n
+	}
+	switch len(rs) {
+	case 0:
+	case 1:
+		tc.memo[fr.call] = rs[0]
+	default:
+		tc.memo[fr.call] = mk("tuple", "", fr.call, rs...)
+	}
+	ex.execFrom(st, fr.block, fr.idx+1)
 }
 
 func loopBlocks(fn *ssa.Function) map[*ssa.BasicBlock]bool {
@@ -360,6 +475,7 @@ func (ex *executor) newTC(st *pstate) {
 	tc.loadVer = func(k string) int { return st.stored[k] }
 	tc.elemVal = func(a *ssa.Alloc, k string) *Term { return st.elems[elemKey{a, k}] }
 	tc.inline = !ex.opts.NoInline
+	tc.subst = st.subst
 	st.tc = tc
 }
 
@@ -427,7 +543,14 @@ func (ex *executor) run(st *pstate, b *ssa.BasicBlock, from *ssa.BasicBlock) {
 		}
 		tc.Of(phi)
 	}
-	for _, in := range b.Instrs {
+	ex.execFrom(st, b, 0)
+}
+
+// execFrom executes the instructions of b from index start on.
+func (ex *executor) execFrom(st *pstate, b *ssa.BasicBlock, start int) {
+	tc := st.tc
+	for idx := start; idx < len(b.Instrs); idx++ {
+		in := b.Instrs[idx]
 		switch in := in.(type) {
 		case *ssa.Store:
 			addr := tc.Of(in.Addr)
@@ -447,14 +570,18 @@ func (ex *executor) run(st *pstate, b *ssa.BasicBlock, from *ssa.BasicBlock) {
 				}
 			}
 			st.seq++
-			st.effects = append(st.effects, Effect{Seq: st.seq, Kind: "store", Instr: in, Addr: addr, Val: val, InLoop: ex.inLoop[b], Block: b, Fresh: rootIsAlloc(addr)})
+			st.effects = append(st.effects, Effect{Seq: st.seq, Kind: "store", Instr: in, Addr: addr, Val: val, InLoop: ex.inLoop[b] || st.viaLoop(ex), Block: b, Via: st.via(), Fresh: rootIsAlloc(addr)})
 			st.stored[addr.Key()]++
 			st.epoch++
 		case *ssa.MapUpdate:
 			st.seq++
-			st.effects = append(st.effects, Effect{Seq: st.seq, Kind: "mapupdate", Instr: in, Addr: tc.Of(in.Map), Key: tc.Of(in.Key), Val: tc.Of(in.Value), InLoop: ex.inLoop[b], Block: b})
+			st.effects = append(st.effects, Effect{Seq: st.seq, Kind: "mapupdate", Instr: in, Addr: tc.Of(in.Map), Key: tc.Of(in.Key), Val: tc.Of(in.Value), InLoop: ex.inLoop[b] || st.viaLoop(ex), Block: b, Via: st.via()})
 			st.epoch++
 		case *ssa.Call:
+			if f := ex.inlinable(st, in); f != nil {
+				ex.enter(st, f, in, b, idx)
+				return
+			}
 			t := tc.Of(in)
 			pure := ex.opts.Pure != nil && ex.opts.Pure(in)
 			if bi, ok := in.Common().Value.(*ssa.Builtin); ok {
@@ -466,25 +593,29 @@ func (ex *executor) run(st *pstate, b *ssa.BasicBlock, from *ssa.BasicBlock) {
 				}
 			}
 			st.seq++
-			st.effects = append(st.effects, Effect{Seq: st.seq, Kind: "call", Instr: in, Call: t, Pure: pure, InLoop: ex.inLoop[b], Block: b})
+			st.effects = append(st.effects, Effect{Seq: st.seq, Kind: "call", Instr: in, Call: t, Pure: pure, InLoop: ex.inLoop[b] || st.viaLoop(ex), Block: b, Via: st.via()})
 			if !pure {
 				st.epoch++
 			}
 		case *ssa.Go:
 			st.seq++
-			st.effects = append(st.effects, Effect{Seq: st.seq, Kind: "go", Instr: in, Call: callTermOf(tc, in.Common()), InLoop: ex.inLoop[b], Block: b})
+			st.effects = append(st.effects, Effect{Seq: st.seq, Kind: "go", Instr: in, Call: callTermOf(tc, in.Common()), InLoop: ex.inLoop[b] || st.viaLoop(ex), Block: b, Via: st.via()})
 			st.epoch++
 		case *ssa.Defer:
 			st.seq++
-			st.effects = append(st.effects, Effect{Seq: st.seq, Kind: "defer", Instr: in, Call: callTermOf(tc, in.Common()), InLoop: ex.inLoop[b], Block: b})
+			st.effects = append(st.effects, Effect{Seq: st.seq, Kind: "defer", Instr: in, Call: callTermOf(tc, in.Common()), InLoop: ex.inLoop[b] || st.viaLoop(ex), Block: b, Via: st.via()})
 		case *ssa.Send:
 			st.seq++
-			st.effects = append(st.effects, Effect{Seq: st.seq, Kind: "send", Instr: in, Addr: tc.Of(in.Chan), Val: tc.Of(in.X), InLoop: ex.inLoop[b], Block: b})
+			st.effects = append(st.effects, Effect{Seq: st.seq, Kind: "send", Instr: in, Addr: tc.Of(in.Chan), Val: tc.Of(in.X), InLoop: ex.inLoop[b] || st.viaLoop(ex), Block: b, Via: st.via()})
 			st.epoch++
 		case *ssa.Panic:
 			ex.emit(st, nil, true)
 			return
 		case *ssa.Return:
+			if len(st.frames) > 0 {
+				ex.leave(st, in)
+				return
+			}
 			ex.emit(st, in, false)
 			return
 		case *ssa.Jump:
@@ -498,6 +629,10 @@ func (ex *executor) run(st *pstate, b *ssa.BasicBlock, from *ssa.BasicBlock) {
 				// build eagerly so that loads observe the locals as of now
 				if u, ok := v.(*ssa.UnOp); ok && u.Op == token.MUL {
 					tc.Of(v)
+					if _, isIA := u.X.(*ssa.IndexAddr); isIA {
+						st.seq++
+						st.loads = append(st.loads, Effect{Seq: st.seq, Kind: "load", Instr: u, Addr: tc.Of(u.X), InLoop: ex.inLoop[b] || st.viaLoop(ex), Block: b, Via: st.via()})
+					}
 				}
 			}
 		}
@@ -532,7 +667,7 @@ func (ex *executor) emit(st *pstate, ret *ssa.Return, panics bool) {
 		ex.over = true
 		return
 	}
-	p := &Path{Blocks: st.blocks, Conds: st.conds, Effects: st.effects, Ret: ret, Panics: panics, Classes: st.classes, Atoms: st.atoms, Free: st.free, tc: st.tc}
+	p := &Path{Blocks: st.blocks, Conds: st.conds, Effects: st.effects, Ret: ret, Panics: panics, Loads: st.loads, Classes: st.classes, Atoms: st.atoms, Free: st.free, tc: st.tc}
 	if ret != nil {
 		for _, r := range ret.Results {
 			p.RetT = append(p.RetT, st.tc.Of(r))
@@ -839,4 +974,26 @@ func reachableFrom(b *ssa.BasicBlock) map[*ssa.BasicBlock]bool {
 func isIntLit(s string) bool {
 	_, err := strconv.ParseInt(s, 10, 64)
 	return err == nil
+}
+
+// via: the chain of inlined calls the state is currently inside (nil at top level).
+func (s *pstate) via() []*ssa.Call {
+	if len(s.frames) == 0 {
+		return nil
+	}
+	out := make([]*ssa.Call, len(s.frames))
+	for i, fr := range s.frames {
+		out[i] = fr.call
+	}
+	return out
+}
+
+// viaLoop: is one of the inlined calls the state is inside made from a loop?
+func (s *pstate) viaLoop(ex *executor) bool {
+	for _, fr := range s.frames {
+		if ex.inLoop[fr.block] {
+			return true
+		}
+	}
+	return false
 }
